@@ -558,26 +558,13 @@ Definition sub_op (o : bop) : bool :=
   | BListSetUint _ _ n _ => width_b n
   | BBitSet _ _ _ => true
   | BSetPtr _ i _ => 0 <=? i
-  | BPLSet _ _ _ => true
+  | BPLSet _ _ _ | BSetStruct _ _ _ | BCopyFrom _ _ => true
   | BSetRoot _ => true
   | BRead l ORoot => match l with InDst => true | InSrc => false end
   | BRead _ (OSPtr _ i) => 0 <=? i
   | BRead _ (OLStruct _ _) | BRead _ (OPLAt _ _) => true
   | BRead _ o => ro_op o
   | BRoundTrip _ _ _ | BDump _ | BReopen => true
-  | _ => false
-  end.
-
-(* the pointer setters of the sub-language store handles of whole objects, or list members
-   without pointer section (they are copied into a fresh struct: [write_ptr_member_data]);
-   storing a list member with pointers is a deep copy, not covered *)
-Definition src_handle (o : bop) : option Z :=
-  match o with BSetPtr _ _ hs | BPLSet _ _ hs | BSetRoot hs => Some hs | _ => None end.
-Definition plain_src (st : bstate) (o : bop) : Prop :=
-  match src_handle o with
-  | Some hs => p_valid (snd (hget st hs)) = true -> p_member (snd (hget st hs)) = true ->
-               PointerCount (p_size (snd (hget st hs))) = 0
-  | None => True
   end.
 
 Lemma cores_snoc objs h : cores objs -> cores (objs ++ [core h]).
